@@ -50,7 +50,16 @@
                                        delivered or queued, unless a prefix of that stream is beyond repair)
      C15_closed_flow_of_accepted       [closed_flow A] follows from acceptance (C06 + the line above)
      C15_text_composition_final        ends_with_break A, nonul A, run_str A and run_str B accepted  =>  the composition:
-                                       property C15 for two streams, as a statement about TEXT *)
+                                       property C15 for two streams, as a statement about TEXT
+   ANY NUMBER OF TEXTS (Proofs/ScanPrefixMany.v):
+     C15_text_composition_many         glue_all_text A0 [A1; ...; An] = A0 "...\n" A1 "...\n" ... An: every part accepted,
+                                       every part except possibly the last NUL-free and ending with a line break  =>  the
+                                       glued text is accepted with the events [glue_allE] of the parts' events - the
+                                       function of the token-level C15_composition_many
+     C15_glued_events_explicit         what glue_allE computes on accepted streams: StreamStart, the documents of A0, the
+                                       documents of A1 raised by the anchored nodes of A0, those of A2 raised by the
+                                       anchored nodes of A0 and A1, ..., StreamEnd
+     C15_text_composition_many_explicit   the two together *)
 From Coq Require Import List NArith ZArith Bool.
 Import ListNotations.
 Require Import Parser Grammar SBase SPrim SDir SScalar SFetch Pipe C02run.
@@ -59,7 +68,7 @@ Require Import ScanShift ScanShiftTop ScanShiftParse ScanShiftDoc.
 Require ScanPrefix ScanPrefixTop.
 Require Import ScanPrefixDoc.
 Require ScanPrefixFinalParse ScanPrefixFinalFlow.
-Require Import ScanPrefixFinalDoc ScanPrefixFinalTop.
+Require Import ScanPrefixFinalDoc ScanPrefixFinalTop ScanPrefixMany.
 
 (* ------------------------------------------------------------------------------------------------ *)
 (* parser                                                                                            *)
@@ -388,6 +397,36 @@ Theorem C15_text_composition_final : forall (A B : list N) (evA evB : list (even
 Proof. exact text_composition_final. Qed.
 Print Assumptions C15_text_composition_final.
 
+(* ---- any number of texts: A0 "...\n" A1 "...\n" ... An ---- *)
+(* [l]: the parts behind the first one, each with its events; [inner_ok A] = [ends_with_break A /\ nonul A] is asked of
+   every part that is followed by a marker line (all but the last); the right-hand side is the function of
+   C15_composition_many ([part_entry] fills the two components [glue_allE] does not read) *)
+Theorem C15_text_composition_many : forall (l : list (list N * list (event * span))) (A0 : list N) (E0 : list (event * span)),
+  run_str A0 = (E0, PDone) -> Forall (fun x => run_str (fst x) = (snd x, PDone)) l ->
+  Forall inner_ok (removelast (A0 :: map fst l)) ->
+  exists EC, run_str (glue_all_text A0 (map fst l)) = (EC, PDone)
+    /\ DocRun.evs_of EC = glue_allE (DocRun.evs_of E0) (map part_entry l).
+Proof. exact text_composition_many. Qed.
+Print Assumptions C15_text_composition_many.
+
+(* [glue_allE] on streams of the shape StreamStart, documents, StreamEnd (the events of every accepted text):
+   [glue_docs d [e0; e1; ...]] = documents of e0 raised by d, documents of e1 raised by d + count_anchored e0, ... *)
+Theorem C15_glued_events_explicit : forall (l : list (span * list token * list (event * span))) (e0 : list event),
+  stream_shape e0 -> Forall (fun x => stream_shape (DocRun.evs_of (snd x))) l ->
+  glue_allE e0 l = EStreamStart :: glue_docs 0 (e0 :: map (fun x => DocRun.evs_of (snd x)) l) ++ [EStreamEnd]
+  /\ stream_shape (glue_allE e0 l).
+Proof. exact glue_allE_explicit. Qed.
+Print Assumptions C15_glued_events_explicit.
+
+Theorem C15_text_composition_many_explicit : forall (l : list (list N * list (event * span))) (A0 : list N) (E0 : list (event * span)),
+  run_str A0 = (E0, PDone) -> Forall (fun x => run_str (fst x) = (snd x, PDone)) l ->
+  Forall inner_ok (removelast (A0 :: map fst l)) ->
+  exists EC, run_str (glue_all_text A0 (map fst l)) = (EC, PDone)
+    /\ DocRun.evs_of EC
+       = EStreamStart :: glue_docs 0 (DocRun.evs_of E0 :: map (fun x => DocRun.evs_of (snd x)) l) ++ [EStreamEnd].
+Proof. exact text_composition_many_explicit. Qed.
+Print Assumptions C15_text_composition_many_explicit.
+
 (* ------------------------------------------------------------------------------------------------ *)
 (* examples: the hypotheses are satisfiable, the statements are not trivially true                    *)
 (* ------------------------------------------------------------------------------------------------ *)
@@ -598,3 +637,67 @@ Proof.
   destruct (C15_text_composition_final [124;10] ex_B evA evB C1 C2 HA HB) as (evC & HC & EV).
   exists evA, evB, evC. auto.
 Qed.
+
+(* ------------------------------------------------------------------------------------------------ *)
+(* any number of texts: three parts, "&a x\n", "- &b y\n- *b\n" (an anchor and an alias to it), "&c z" (the last part    *)
+(* need not end with a line break).  The hypotheses hold; the anchor of the second part gets id 2 and its alias    *)
+(* follows, the anchor of the third part gets id 3 (1 + 1 anchored nodes before it)                                  *)
+(* ------------------------------------------------------------------------------------------------ *)
+Definition ex_P0 : list N := [38;97;32;120;10].
+Definition ex_P1 : list N := [45;32;38;98;32;121;10;45;32;42;98;10].
+Definition ex_P2 : list N := [38;99;32;122].
+Example ex_many_text :
+  glue_all_text ex_P0 [ex_P1; ex_P2]
+  = [38;97;32;120;10; 46;46;46;10; 45;32;38;98;32;121;10;45;32;42;98;10; 46;46;46;10; 38;99;32;122].
+Proof. reflexivity. Qed.
+Example ex_many_parts_alone :
+  DocRun.evs_of (fst (run_str ex_P1))
+  = [EStreamStart; EDocumentStart false; ESequenceStart 0 None; EScalar [121] Plain 1 None; EAlias 1; ESequenceEnd;
+     EDocumentEnd; EStreamEnd]
+  /\ DocRun.evs_of (fst (run_str ex_P2))
+  = [EStreamStart; EDocumentStart false; EScalar [122] Plain 1 None; EDocumentEnd; EStreamEnd].
+Proof. split; vm_compute; reflexivity. Qed.
+Example text_composition_many_applied :
+  exists EC, run_str (glue_all_text ex_P0 [ex_P1; ex_P2]) = (EC, PDone)
+    /\ DocRun.evs_of EC
+       = [EStreamStart; EDocumentStart false; EScalar [120] Plain 1 None; EDocumentEnd;
+          EDocumentStart false; ESequenceStart 0 None; EScalar [121] Plain 2 None; EAlias 2; ESequenceEnd; EDocumentEnd;
+          EDocumentStart false; EScalar [122] Plain 3 None; EDocumentEnd; EStreamEnd].
+Proof.
+  pose (E0 := fst (run_str ex_P0)). pose (E1 := fst (run_str ex_P1)). pose (E2 := fst (run_str ex_P2)).
+  assert (H0 : run_str ex_P0 = (E0, PDone)) by (vm_compute; reflexivity).
+  assert (H1 : run_str ex_P1 = (E1, PDone)) by (vm_compute; reflexivity).
+  assert (H2 : run_str ex_P2 = (E2, PDone)) by (vm_compute; reflexivity).
+  destruct (C15_text_composition_many [(ex_P1, E1); (ex_P2, E2)] ex_P0 E0 H0) as (EC & HC & EV).
+  - constructor; [exact H1|constructor; [exact H2|constructor]].
+  - cbn [map fst removelast]. unfold ex_P0, ex_P1.
+    constructor; [split; [right; reflexivity|repeat (constructor; [discriminate|]); constructor]|].
+    constructor; [split; [right; reflexivity|repeat (constructor; [discriminate|]); constructor]|constructor].
+  - exists EC. split; [exact HC|]. rewrite EV. vm_compute. reflexivity.
+Qed.
+(* ... and the explicit form on the same parts *)
+Example text_composition_many_explicit_applied :
+  exists EC, run_str (glue_all_text ex_P0 [ex_P1; ex_P2]) = (EC, PDone)
+    /\ DocRun.evs_of EC
+       = EStreamStart
+         :: (docs_of (DocRun.evs_of (fst (run_str ex_P0)))
+             ++ map (shift_ev 1) (docs_of (DocRun.evs_of (fst (run_str ex_P1))))
+             ++ map (shift_ev 2) (docs_of (DocRun.evs_of (fst (run_str ex_P2)))))
+         ++ [EStreamEnd].
+Proof.
+  pose (E0 := fst (run_str ex_P0)). pose (E1 := fst (run_str ex_P1)). pose (E2 := fst (run_str ex_P2)).
+  assert (H0 : run_str ex_P0 = (E0, PDone)) by (vm_compute; reflexivity).
+  assert (H1 : run_str ex_P1 = (E1, PDone)) by (vm_compute; reflexivity).
+  assert (H2 : run_str ex_P2 = (E2, PDone)) by (vm_compute; reflexivity).
+  destruct (C15_text_composition_many_explicit [(ex_P1, E1); (ex_P2, E2)] ex_P0 E0 H0) as (EC & HC & EV).
+  - constructor; [exact H1|constructor; [exact H2|constructor]].
+  - cbn [map fst removelast]. unfold ex_P0, ex_P1.
+    constructor; [split; [right; reflexivity|repeat (constructor; [discriminate|]); constructor]|].
+    constructor; [split; [right; reflexivity|repeat (constructor; [discriminate|]); constructor]|constructor].
+  - exists EC. split; [exact HC|]. rewrite EV. vm_compute. reflexivity.
+Qed.
+(* the condition on the inner parts is a real one: "x" "...\n" "y" (no line break before the marker line) is ONE document *)
+Example inner_break_needed :
+  DocRun.evs_of (fst (run_str (glue_all_text [120] [[121]])))
+  = [EStreamStart; EDocumentStart false; EScalar [120;46;46;46;32;121] Plain 0 None; EDocumentEnd; EStreamEnd].
+Proof. vm_compute. reflexivity. Qed.
